@@ -1748,6 +1748,37 @@ fn main() {
         std::process::exit(2);
     }
     let mode = args[2].as_str();
+    if args[1] == "ref" {
+        // replay ref formula <text>: the REFERENCE meaning of a formula (independent evaluator; real tokenizer + reference parser)
+        let src = args[3].as_str();
+        let toks = match SymbolicBDD::tokenize(&mut src.as_bytes(), None) {
+            Ok(t) => t,
+            Err(_) => {
+                println!("{{\"ok\":false}}");
+                return;
+            }
+        };
+        let parsed = ref_sub(&toks).and_then(|(t, r)| if r.first() == Some(&T::Eof) { to_f(&t) } else { None });
+        match parsed {
+            None => println!("{{\"ok\":false}}"),
+            Some(f) => {
+                let mut vars = vec![];
+                names(&f, &mut vars);
+                let mut fr = vec![];
+                free(&f, &mut vec![], &mut fr);
+                match sem(&f, &vars, &BTreeMap::new()) {
+                    None => println!("{{\"ok\":false}}"),
+                    Some(tt) => println!(
+                        "{{\"ok\":true,\"vars\":[{}],\"free\":[{}],\"tt\":\"{}\"}}",
+                        vars.iter().map(|v| format!("\"{}\"", esc(v))).collect::<Vec<_>>().join(","),
+                        fr.iter().map(|v| format!("\"{}\"", esc(v))).collect::<Vec<_>>().join(","),
+                        tts(&tt)
+                    ),
+                }
+            }
+        }
+        return;
+    }
     let found = if args[1] == "case" {
         let c = args[3].as_str();
         match mode {
